@@ -639,16 +639,30 @@ def float64(x=0.0):
 
 
 class _RClass:
-    def __init__(self, real):
+    """np.r_ / np.c_ for the forms used by the code base: plain concatenation of arrays / lists / scalars
+    (r_: along the first axis; c_: 1-D operands become columns, concatenation along the last axis)"""
+
+    def __init__(self, real, mode):
         self.real = real
+        self.mode = mode
 
     def __getitem__(self, key):
         if not isinstance(key, tuple):
             key = (key,)
-        key2 = tuple(asarray(k) if isinstance(k, (list, tuple, _np.ndarray)) else
-                     (asarray([k]) if isinstance(k, (Sym, Fraction)) else k) for k in key)
-        r = self.real[key2]
-        return _wrap(r) if isinstance(r, _np.ndarray) else r
+        if any(isinstance(k, (slice, str)) for k in key):
+            raise S.SymbolicLeak('np.%s_ with slice/string directives is not modelled' % self.mode)
+        items = []
+        for k in key:
+            a = asarray(k) if isinstance(k, (list, tuple, _np.ndarray)) else asarray([k])
+            items.append(_np.asarray(a).view(_np.ndarray))
+        if self.mode == 'r':
+            nd = max(i.ndim for i in items)
+            items = [i if i.ndim == nd else i.reshape((1,) * (nd - i.ndim) + i.shape) for i in items]
+            r = _np.concatenate(items, axis=0)
+        else:
+            items = [i.reshape((-1, 1)) if i.ndim == 1 else i for i in items]
+            r = _np.concatenate(items, axis=-1)
+        return r.view(SArr)
 
 
 # ---------------------------------------------------------------------------------------------
@@ -846,8 +860,8 @@ def build():
     m.asanyarray = asarray
     m.ascontiguousarray = asarray
     m.float32 = float64
-    m.r_ = _RClass(_np.r_)
-    m.c_ = _RClass(_np.c_)
+    m.r_ = _RClass(_np.r_, 'r')
+    m.c_ = _RClass(_np.c_, 'c')
     m.pi = S.sym_pi()
     m.inf = math.inf
     m.ndarray = _np.ndarray
